@@ -9,3 +9,51 @@ ALIASES = {
             ("C09.entry.RunAccumulated.files_opened_before_anything_is_reported", "props.C04", "unit_run_entry", ("RunAccumulated",))],
     "C07": [("C07.compute_gfw.formula_weight_cache_emptied_when_a_database_is_read", "props.c15_more", "unit_gfw_cache", ())],
 }
+
+# (unit id under this property, source property, source unit id)
+ALIASES_BY_ID = {
+    "C09": [("C09.open_output_files.each_switch_reopens_exactly_its_own_stream_on_its_own_file", "C04", "C04.open_output_files.each_switch_reopens_exactly_its_own_stream_on_its_own_file"),
+            ("C09.check_database.per_call_views_cleared_before_the_run", "C04", "C04.check_database.per_call_reset_frame"),
+            ("C09.rows.each_definition_through_its_own_stream_and_user_punch", "C05", "C05.rows.each_definition_through_its_own_stream_and_user_punch"),
+            ("C09.ofstream_open.pointer_replaced_only_on_success", "C08", "C08.ofstream_open.pointer_replaced_only_on_success")],
+    "C13": [("C13.load_db.switches_restored_after_the_load", "C07", "C07.load_db.old_state_discarded_before_the_new_database_is_read")],
+    "C08": [("C08.load_db.errors_counted_and_state_discarded", "C07", "C07.load_db.old_state_discarded_before_the_new_database_is_read"),
+            ("C08.check_database.error_views_describe_this_call_only", "C04", "C04.check_database.per_call_reset_frame")],
+}
+
+# (this property, source property, regular expression over the source unit id): every matching unit of the source runs once more under this
+# property's id (prefix replaced).  These are units on functions that the anchors of BOTH properties name.
+ALIAS_RULES = [
+    ("C02", "C01", r"\.(sum_species|residuals\.row_equations|build_model\.|build_mb_sums|store_mb|mb_sums|trxn_add)"),
+    ("C02", "C14", r"\.saver\."),
+    ("C02", "C12", r"\.(calc_final_kinetic_reaction|rk_kinetics\.m_decreases)"),
+    ("C03", "C02", r"\.(reset\.mineral_transfer|add_pp_assemblage\.amount|add_ss_assemblage\.amount|xpp_assemblage_save|xss_assemblage_save)"),
+    ("C03", "C01", r"\.check_residuals\."),
+    ("C04", "C12", r"\.(reactions\.step_driver|step_drivers\.)"),
+    ("C04", "C14", r"\.(saver\.|copy_entities|delete_entities|run_as_cells|copy_use)"),
+    ("C04", "C10", r"\.(dump_entities|dump_ostream)"),
+    ("C05", "C04", r"\.tidy_punch"),
+    ("C05", "C17", r"\.cmdpunch"),
+    ("C08", "C01", r"\.check_residuals\."),
+    ("C08", "C17", r"\.errormsg"),
+    ("C09", "C04", r"\.(close_output_files|safe_close)"),
+    ("C09", "C05", r"\.punch\.(IPhreeqc_punch_msg|IPhreeqc_fpunchf|PHRQ_io_fpunchf)"),
+    ("C10", "C14", r"\.(Rxn_read_raw|Rxn_read_modify|SB_read_modify|read_input\.RAW_MODIFY|StorageBin\.)"),
+    ("C12", "C14", r"\.run_as_cells"),
+    ("C13", "C14", r"\.IPhreeqc\.components"),
+    ("C13", "C05", r"\.counts\.of_the_table"),
+    ("C13", "C09", r"\.(strings\.each_view|lines\.GetSelectedOutputStringLine)"),
+    ("C14", "C10", r"\.(dump_ostream\.|dump_entities|phreeqc2cxxStorageBin|cxxStorageBin2phreeqc)"),
+    ("C15", "C02", r"\.(add_solution\.|add_mix\.|NameDouble\.add_extensive)"),
+    ("C16", "C01", r"\.species_readouts\.LA"),
+    ("C17", "C05", r"\.user_punch\."),
+    ("C17", "C12", r"\.calc_kinetic_reaction"),
+    ("C19", "C02", r"\.(xgas_save|add_gas_phase)"),
+    ("C19", "C03", r"\.mb_gases"),
+    ("C20", "C01", r"\.build_model\.species_wired_by_kind"),
+    ("C20", "C03", r"\.(check_residuals\.SURFACE|setup_surface)"),
+    ("C20", "C02", r"\.(xsurface_save|add_surface\.|mb_for_species)"),
+    ("C11", "C14", r"\.set_advection"),
+    ("C07", "C13", r"\.defaults\.initial_settings"),
+    ("C01", "C15", r"\.convert_units\."),
+]
